@@ -270,6 +270,35 @@ impl AOracle for Oracle {
 /// World-B part: adss shares with arbitrary message / coin lengths and sharks
 /// shares with k y-values cross the wire.
 fn lower_layers(ctx: &mut Ctx) -> Result<(), Violation> {
+    // the public 4-byte decoders on their own: load_u32 and AccessStructure::from_bytes (threshold field). A
+    // truncated field (0..3 bytes) is structurally invalid and must be refused; the 4-byte field decodes to its
+    // little-endian value and re-encodes to itself; for a longer input a decoder may refuse, or read the
+    // leading field and ignore the rest (then the value is that of the first 4 bytes).
+    {
+        let v = *ctx.ch.pick(&[0u32, 1, 2, 255, 256, 65_535, 65_536, 0x0100_0000, 0x8000_0000, u32::MAX, 0x0403_0201]);
+        let full = v.to_le_bytes();
+        for n in 0..=7usize {
+            let mut inp = full.to_vec();
+            inp.resize(n.max(4), 0xaa);
+            inp.truncate(n);
+            let got = adss::load_u32(&inp);
+            let acc = adss::AccessStructure::from_bytes(&inp).map(|a| u32::from_le_bytes(a.to_bytes()));
+            for (what, g) in [("load_u32", got), ("AccessStructure::from_bytes", acc)] {
+                let ok = match (n, g) {
+                    (0..=3, None) => true,
+                    (0..=3, Some(_)) => false,
+                    (4, Some(x)) => x == v,
+                    (4, None) => false,
+                    (_, None) => true,
+                    (_, Some(x)) => x == v,
+                };
+                if !ok {
+                    return Err(Violation::new("c08.accept_mismatch", "four_byte_field", format!("{} on {} of the bytes {:02x?} (+ filler) returned {:?}: a truncated field must be refused, a whole one must decode to {}", what, n, full, g, v)));
+                }
+            }
+            ctx.stats.fault("truncate_four_byte_field");
+        }
+    }
     let lens: Vec<usize> = if ctx.ch.chance(1, 12) { vec![0, 65_535, 65_536, 70_000] } else { vec![0usize, 1, 15, 16, 17, 32, 165, 166, 167, 1000] };
     let t = *ctx.ch.pick(&[0u32, 1, 2, 3, 5, 17, 100]);
     let ml = *ctx.ch.pick(&lens);
